@@ -3,9 +3,9 @@
 cd "$(dirname "$0")/.." || exit 2
 tier=${1:-quick}; shift 2>/dev/null
 ids="$@"; [ -z "$ids" ] && ids=$(python3 -c "import json;print(' '.join(c['property_id'] for c in json.load(open('MANIFEST.json'))['checks']))")
-mkdir -p /var/tmp/sweep
+d=/var/tmp/sweep-$$; mkdir -p $d
 for id in $ids; do
-  ./check $id $tier > /var/tmp/sweep/$id.log 2>&1; rc=$?
-  echo "$id rc=$rc $(tail -n 1 /var/tmp/sweep/$id.log | cut -c1-200)"
-  grep "^VIOLATION\|MACHINERY" /var/tmp/sweep/$id.log | head -3
+  ./check $id $tier > $d/$id.log 2>&1; rc=$?
+  echo "$id rc=$rc $(tail -n 1 $d/$id.log | cut -c1-200)"
+  grep "^VIOLATION\|MACHINERY" $d/$id.log | head -3
 done
